@@ -382,12 +382,13 @@ def forms():
     SC = [('mul', lambda P, k: P * k, 'X*s'), ('rmul', lambda P, k: k * P, 's*X'), ('div', lambda P, k: P / k, 'X/s'),
           ('add', lambda P, k: P + k, 'X+s'), ('radd', lambda P, k: k + P, 's+X'), ('sub', lambda P, k: P - k, 'X-s'),
           ('rsub', lambda P, k: k - P, 's-X')]
+    SC = [(on, op, f'{txt} ({on})') for on, op, txt in SC]      # the operator name keeps the replay file names distinct
     CL = [('SE3', SE3, M44, 'se3'), ('SO3', SO3, M33, 'rot'), ('SE2', SE2, M33, 'se2'), ('SO2', SO2, M22, 'rot2')]
     for cn, C, sh, dom in CL:
         for on, op, txt in SC:
             add(f'op.{cn} scalar', txt, [('X', sh, dom), ('s', S, 'nz')], (lambda C, op: lambda X, k: op(C(X, check=False), k))(C, op),
                 trace=f'tr_{cn}_s{on}')
-            add(f'op.{cn} scalar', txt.replace('s', '0.5'), [('X', sh, dom)], (lambda C, op: lambda X: op(C(X, check=False), 0.5))(C, op),
+            add(f'op.{cn} scalar', txt.replace('s', '0.5', 1).replace('0.5ub', 'sub'), [('X', sh, dom)], (lambda C, op: lambda X: op(C(X, check=False), 0.5))(C, op),
                 trace=(f'tr_{cn}_s{on}_05' if cn == 'SE3' else None))   # 0.5: 1/0.5 is exact, so X/0.5 is an exact specialisation
         add(f'op.{cn} scalar', 'X*(s+1)', [('X', sh, dom), ('s', S, 'nz')], (lambda C: lambda X, k: C(X, check=False) * (k + 1))(C),
             trace=(f'tr_{cn}_smul_expr' if cn == 'SE3' else None))
@@ -531,8 +532,11 @@ def evaluate_form(ctx, F, npts):
     F.status = 'Ok'
     svals, syms = sym_args(F)
     sym_res = sym_exc = None
+    returned_none = False
     try:
-        sym_res = to_object_array(F.call(*svals))
+        raw = F.call(*svals)
+        returned_none = raw is None
+        sym_res = to_object_array(raw)
     except Exception as ex:  # noqa
         sym_exc = ex
     # numeric path on generic arguments: does the numeric path accept this call form?  structural constants
@@ -569,6 +573,13 @@ def evaluate_form(ctx, F, npts):
                  f"{type(num_exc).__name__}: {num_exc}", dict(rep, exception=str(num_exc)))
         F.status = 'NumRaises'
         return sym_res
+    if returned_none:
+        F.status = 'SymRaises'
+        ctx.fail(f"sym:returns-none:{key}",
+                 f"{what_is(F)} but the call form ({F.fid}) with symbolic arguments returns None (no operand branch matched); "
+                 f"the numeric path returns a value", dict(rep, numeric_args_hex=[float(x).hex() for x in flat_floats(gens[0][0])],
+                                                            numeric_result=gens[0][1].tolist()))
+        return None
     # ---- shape
     nshape = gens[0][1].shape
     if tuple(sym_res.shape) != tuple(nshape):
